@@ -47,10 +47,10 @@ for _u, _d in UNITS.items():
     BY_DIM.setdefault(_d, []).append(_u)
 
 OTHER_RV = ["uniform", "halfnormal", "studentt", "truncnormal", "lognormal", "beta", "uniformlog", "laplace", "mvnormal"]
-KIND_OF = dict(normal="normal", fcm="fcm", determ="unnamedOp", expr="unnamedOp", const="noOwner", pyfloat="noOwner",
+KIND_OF = dict(normal="normal", fcm="fcm", normal_dep_sigma="normalDep", normal_dep_mu="normalDep", determ="unnamedOp", expr="unnamedOp", const="noOwner", pyfloat="noOwner",
                fake="notTensor", **{k: "otherRV" for k in OTHER_RV})
 KIND_OF["uniformlog"] = "unnamedOp"     # thejoker's own UniformLogRV has no `_print_name`
-REGISTERS = {"normal", "fcm", "determ"} | set(OTHER_RV)     # kinds that enter model.named_vars
+REGISTERS = {"normal", "fcm", "determ", "normal_dep_sigma", "normal_dep_mu"} | set(OTHER_RV)     # kinds that enter model.named_vars
 
 
 _TREND = re.compile(r"v(0|[1-9][0-9]*)")
@@ -110,6 +110,10 @@ def make_var(name, dk, models):
     with model:
         if dk == "normal":
             return pm.Normal(name, 0.5, 10.0)
+        if dk == "normal_dep_sigma":      # a Normal whose width is a function of another random variable: not independent
+            return pm.Normal(name, 0.0, 1.0 + pm.HalfNormal(aux, 3.0))
+        if dk == "normal_dep_mu":         # a Normal whose mean is another random variable (hyper-prior)
+            return pm.Normal(name, pm.Normal(aux, 0.0, 2.0), 5.0)
         if dk == "fcm":
             return FixedCompanionMass(name, P=pm.Uniform(aux + "P", 1.0, 10.0), e=pm.Uniform(aux + "e", 0.0, 0.5),
                                       sigma_K0=30 * u.km / u.s, P0=1 * u.yr)
@@ -263,8 +267,8 @@ def wellformed_oracle(spec):
         if env[n][0] != canon_dim(n):
             return False, f"{n} has a unit of the wrong dimension"
     for n in need[5:]:
-        if env[n][1] not in ("normal", "fcm"):
-            return False, f"linear parameter {n} is not Normal"
+        if not (env[n][1] == "normal" or (env[n][1] == "fcm" and n == "K")):
+            return False, f"linear parameter {n} is not an independent Normal (FixedCompanionMass: K only)"
     return True, None
 
 
@@ -348,7 +352,7 @@ def judge_prior(ctx, g, spec, tag):
 
 
 DIM_POOL = sorted(set(UNITS.values()))
-LIN_BAD_KINDS = OTHER_RV + ["determ", "expr", "const", "pyfloat", "fake"]
+LIN_BAD_KINDS = OTHER_RV + ["normal_dep_sigma", "normal_dep_mu", "determ", "expr", "const", "pyfloat", "fake"]
 
 
 def copy_spec(spec):
@@ -383,7 +387,8 @@ def single_mutations(spec, rng):
         for dk in LIN_BAD_KINDS + ["normal", "fcm"]:
             s = copy_spec(spec)
             entry(s, n)["dk"] = dk
-            out.append((("kind-linear-bad" if dk not in ("normal", "fcm") else "kind-linear-ok") if lin else "kind-nonlinear", s))
+            ok_kind = dk == "normal" or (dk == "fcm" and n == "K")
+            out.append((("kind-linear-ok" if ok_kind else "kind-linear-bad") if lin else "kind-nonlinear", s))
     # offsets: wrong names, order
     for j in range(1, q + 1):
         for bad in (f"dv0_{j-1}" if j == 1 else f"dv0_{q+1}", f"dv_{j}", f"dv0_0{j}", f"v0_{j}", f"dv0_{q+1}"):
@@ -668,8 +673,8 @@ def default_oracle(d):
         if env[n][0] != canon_dim(n):
             return False, f"{n} has a unit of the wrong dimension"
     for n in need[5:]:
-        if env[n][1] not in ("normal", "fcm"):
-            return False, f"linear parameter {n} is not Normal"
+        if not (env[n][1] == "normal" or (env[n][1] == "fcm" and n == "K")):
+            return False, f"linear parameter {n} is not an independent Normal (FixedCompanionMass: K only)"
     return True, None
 
 
